@@ -169,10 +169,17 @@ end
 /-- `"    ".repeat(indent_level)` -/
 def indent (n : Nat) : Str := (List.replicate n s%"    ").flatten
 
+/-- `v.replace("\"\"\"", "\\\"\\\"\\\"")`: a `\"\"\"` in the doc text is written as `\\\"\\\"\\\"` -/
+def escapeDoc : Str → Str
+  | c :: c2 :: c3 :: r =>
+    if c = '"' ∧ c2 = '"' ∧ c3 = '"' then s%"\\\"\\\"\\\"" ++ escapeDoc r
+    else c :: escapeDoc (c2 :: c3 :: r)
+  | s => s
+
 /-- `write_comments(w, true, comments, indent)` -/
 def docstring (lvl : Nat) (cs : List Str) : Str :=
   if cs.isEmpty then [] else
-  indent lvl ++ s%"\"\"\"\n" ++ Str.intercalate nl (cs.map fun c => indent lvl ++ c) ++ nl ++
+  indent lvl ++ s%"\"\"\"\n" ++ Str.intercalate nl (cs.map fun c => indent lvl ++ escapeDoc c) ++ nl ++
     indent lvl ++ s%"\"\"\"" ++ nl
 
 /-- `write_comments(w, false, comments, indent)` -/
